@@ -50,9 +50,42 @@ def walk(F, crate, roots_rx, stop_rx=None):
 def chain_of(inst, seen, i, n=6):
     out = []
     while i is not None and len(out) < n:
-        out.append(short(inst[i]["key"], 2))
+        out.append(short(inst[i]["key"], 2)[:90])
         i = seen[i]
     return " <- ".join(out)
+
+
+def r4_fn(ctx, rid, crate, roots, forbidden_fn, allow=(), floor_roots=1, control=None, desc=None):
+    """No *function* whose canonical name matches `forbidden_fn` is reached from the roots (through workspace and upstream generic code).
+    `control`: a pattern that must be reached on every run (positive control of the matcher and of the walk through upstream generics)."""
+    F = ctx.F
+    inst, rts, seen = walk(F, crate, pat(roots))
+    rx = pat(forbidden_fn)
+    d = desc or "no function matching %s is reachable from %s" % (forbidden_fn, roots)
+    if len(rts) < floor_roots:
+        return ctx.record(rid, "R4", None, d, "anchor-lost", [], ["%d roots (floor %d)" % (len(rts), floor_roots)], key_detail="anchor-lost")
+    names = {}
+    for i in seen:
+        r = inst.get(i)
+        if r and not r.get("ext"):
+            names.setdefault(norm(r["key"]), i)
+    if control is not None:
+        crx = pat(control)
+        if not any(crx.search(k) for k in names):
+            return ctx.record(rid, "R4", None, d, "anchor-lost", [], ["positive control %s is not reached: the walk through upstream generic code is broken" % control], key_detail="control-lost")
+    bad = sorted(k for k in names if rx.search(k) and k not in allow)
+    ctx.stats["instances_reached"] += len(seen)
+    if bad:
+        for k in bad:
+            fn = F.fns.get(k)
+            ctx.record(rid, "R4", k if fn else None, d, "violation", [fn_loc(fn)] if fn else [], ["%s is reachable from an untrusted entry; call chain: %s" % (k, chain_of(inst, seen, names[k], 8))],
+                       key_detail="reach:" + short(k, 2))
+        return False
+    ctx.record(rid, "R4", None, d + " [%d roots, %d instances reached, %d workspace functions]" % (len(rts), len(seen), len(names)), "hold", [])
+    return True
+
+
+Ctx.r4_fn = r4_fn
 
 
 def sites(F, crate, roots, forbid, stop=None, asserts=ASSERT_KINDS):
@@ -63,6 +96,10 @@ def sites(F, crate, roots, forbid, stop=None, asserts=ASSERT_KINDS):
     for i in seen:
         r = inst.get(i)
         if not r:
+            continue
+        if r.get("ext"):
+            # an upstream generic walked only because it can call back into the workspace: its own constructs are represented by the
+            # forbidden-call name of the workspace call that enters it (`Vec::with_capacity`, `Option::unwrap`, slice indexing ...)
             continue
         k = norm(r["key"])
         if k in per_fn:
